@@ -132,6 +132,11 @@ fn run<T: Scalar>(c: &Case, xs: &[f64], out: &mut TrialOut) {
     };
     let mut big = 1e-300f64;
     let mut suspended = false;
+    // PFE over a Sma: the smoother's running sum (add the new, subtract the departed term) keeps
+    // eps x the largest raw efficiency that ever passed through it; that is rounding of the supplied
+    // moving average, not a deviation of PFE from its formula
+    let raw_eff: Vec<f64> = if !T::EXACT && c.vi == 8 && matches!(c.ma, RefMa::Sma(_)) { oe::pfe(xs, c.n, RefMa::Echo).iter().map(|o| o.map(|r| r.abs()).unwrap_or(0.0)).collect() } else { vec![] };
+    let mut raw_max = 0f64;
     for t in 0..xs.len() {
         big = big.max(xs[t].abs());
         let r = guarded(|| {
@@ -175,7 +180,10 @@ fn run<T: Scalar>(c: &Case, xs: &[f64], out: &mut TrialOut) {
         // has 1.414 pi / N = 4.44221201218... / N: up to 4e-6 of scale on the
         // unchanged tree; every other view follows the statement's spelling and agrees with the
         // batch re-evaluation to 5e-14
-        let tol = if c.vi <= 1 { 2e-5 } else { 1e-9 } * scale;
+        if let Some(r) = raw_eff.get(t) {
+            raw_max = raw_max.max(*r);
+        }
+        let tol = if c.vi <= 1 { 2e-5 } else { 1e-9 } * scale + 64.0 * f64::EPSILON * raw_max;
         out.cell(&cell, 1);
         let ok = match (got, e) {
             (None, None) => true,
@@ -235,6 +243,22 @@ impl Monitor for C11 {
         let c = make_case(vi, n, &mut rng);
         let len = if exact { 40 + 3 * c.n.min(16) } else { (6 * c.n + 100).max(cfg.tier.pick(500, 20_000)).min(cfg.tier.pick(2_000, 20_000)) };
         let mut xs = gen::gen(class, c.n, len, &mut rng);
+        // one f64 trial in twelve hops between two or three adjacent floats around a level (a window
+        // whose range is one ulp is not flat); for EFT, which normalises by the range, another one in
+        // twelve runs in units of 2^-1064 (every value and every range a subnormal number)
+        if !exact && rng.chance(1, 12) {
+            let lvl = *rng.pick(&[1.0f64, 1000.5, 16777215.0, 0.3]);
+            let hops = rng.usize(2, 3) as u64;
+            for x in xs.iter_mut() {
+                *x = f64::from_bits(lvl.to_bits() + rng.below(hops));
+            }
+            out.count("f64_trials_hopping_between_adjacent_floats", 1);
+        } else if !exact && vi == 7 && rng.chance(1, 12) {
+            for x in xs.iter_mut() {
+                *x *= 2f64.powi(-532) * 2f64.powi(-532);
+            }
+            out.count("f64_trials_in_subnormal_units(EFT)", 1);
+        }
         // one f64 trial in four in units of 2^10 or 2^20: PFE (whose formula contains the absolute
         // terms +1 and N^2) and any shortcut taken "for large moves" see another regime there
         if !exact && rng.chance(1, 4) {
